@@ -329,6 +329,17 @@ Lemma served_signbytes_are_recomputed :
   Gen.C05.consensus_package_level_maps = 0.
 Proof. split; [repeat constructor | repeat split; reflexivity]. Qed.
 
+(** fourth round: the bytes to sign stored with a skyway batch are rewritten whenever something they
+    cover changes -- at estimate election and, for EVERY open batch of the chain, when the chain is
+    activated with a new compass: the loop skips a batch only for another chain or unchanged bytes *)
+Lemma batch_bytes_follow_the_compass :
+  Gen.C05.batch_refresh_skip_conditions = ["batch.ChainReferenceID!=chainReferenceID"; "bytes.Equal(bts,batch.BytesToSign)"]%string /\
+  Gen.C05.batch_refresh_rewrites_bytes = true /\ Gen.C05.batch_refresh_reads_all_open_batches = true /\
+  Gen.C05.batch_refresh_on_compass_activation = true /\ Gen.C05.batch_estimate_election_rewrites_bytes = true /\
+  Gen.C05.batch_bytes_to_sign_writes =
+    ["UpdateBatchGasEstimate:entity.BytesToSign=bts"; "refreshOpenBatchCheckpoints:batch.BytesToSign=bts"]%string.
+Proof. repeat split; reflexivity. Qed.
+
 (** ---- non-vacuity ---- *)
 Example ids_sample :
   let ops := [OPut 0 0 10; OPut 1 0 11; OPut 0 1 12; ORemove 1 2; OPut 1 0 13; OPut 1 1 14] in
